@@ -42,14 +42,14 @@ ASSUMPTIONS = [
     'BlockSliceQuery.find_proposal_injection is excluded: it calls a non-existent OperationListListQuery.find_votes after the search returns '
     '(a defect outside this statement).',
 ]
-EXPECTED_PROBES = ['chain_extended_between_two_searches', 'none_valued_history', 'search_aborted_by_definitive_failure', 'slice_reused_for_second_search', 'change_at_last_plus_1', 'change_at_head', 'adjacent_changes', 'step_exceeds_range', 'no_change_in_range', 'fault_during_search',
+EXPECTED_PROBES = ['two_searches_interleaved', 'coarse_equality', 'chain_extended_between_two_searches', 'none_valued_history', 'search_aborted_by_definitive_failure', 'slice_reused_for_second_search', 'change_at_last_plus_1', 'change_at_head', 'adjacent_changes', 'step_exceeds_range', 'no_change_in_range', 'fault_during_search',
                    'chain_grew_during_search']
 
 PKH = 'tz1VSUr8wwNhLAzempoch5d6hLRiTh8Cjcjb'
 VOTERS = ['tz1Ke2h7sDdakHJQh8WX4Z372du1KChsksyU', 'tz1aSkwEot3L2kmUvcoxzjMomb9mvBNuzFK6', 'tz1gjaF81ZRRvdzjobyfVNsAeSC6PScjfQwN', 'tz1faswCTDciRzE4oJ9jn2Vm2dvjeyA9fUzU']
 PROP_A = 'PsD5wVTJc3Bv7U9yo9oNgnbQm8S8iTBLxzX5JHVNtSLRC6xdLRR'
 PROP_B = 'PtSeouLouXkxhg39oWzjxDWaCydNfR3RxCUrNe4Q9Ro8BTehcbh'
-KINDS = ['changes:counter', 'changes:ballots', 'changes:proposals', 'changes:kt', 'single:counter', 'walk:counter', 'api:ballots', 'api:upvotes', 'api:origination']
+KINDS = ['changes:counter', 'changes:ballots', 'changes:proposals', 'changes:kt', 'changes:info', 'single:counter', 'walk:counter', 'api:ballots', 'api:upvotes', 'api:origination']
 
 
 def gen(seed, tier):
@@ -125,6 +125,8 @@ def gen(seed, tier):
         'faults': faults, 'baker': baker, 'latency_ms': rng.choice([0, 0, 5, 400]), 'nvotes': rng.choice([1, 1, 2, 3]),
         'slice_mode': slice_mode, 'presearch': kind.startswith('api:') and rng.random() < 0.35, 'steps': [],
     }
+    if kind in ('api:ballots', 'api:upvotes') and rng.random() < 0.2:
+        scn_out['interleave'] = True
     if scn_out['slice_mode'] == 'open' and rng.random() < 0.6:
         # the same open slice object is searched, the chain then moves on (new votes included), and it is searched again
         scn_out['presearch'] = True
@@ -155,13 +157,13 @@ def build_chain(node, scn, S=None, levels=None, changes=None):
     if S is None:
         S = {'hist': {0: None}, 'expected_ops': {}, 'ctr': 10, 'ballots': {'yay': 0, 'nay': 0, 'pass': 0}, 'rolls': {PROP_A: 0, PROP_B: 0},
              'kt': oc.b58enc('KT1', oc.blake2b(b'c29-contract', 20)), 'noise_i': 0, 'ktctr': None}
-        if what == 'counter':
+        if what in ('counter', 'info'):
             node.tracked['ctr:' + PKH] = S['ctr']
         elif what == 'ballots':
             node.tracked['ballots'] = dict(S['ballots'])
         elif what in ('proposals', 'upvotes'):
             node.tracked['proposals'] = []
-        if what == 'counter':
+        if what in ('counter', 'info'):
             S['hist'][0] = '10'
         elif what == 'ballots':
             S['hist'][0] = {'yay': 0, 'nay': 0, 'pass': 0}
@@ -174,7 +176,7 @@ def build_chain(node, scn, S=None, levels=None, changes=None):
     hist, expected_ops, ballots, rolls, kt = S['hist'], S['expected_ops'], S['ballots'], S['rolls'], S['kt']
     for lvl in levels:
         if lvl in changes:
-            if what == 'counter':
+            if what in ('counter', 'info'):
                 S['ctr'] += 1 + (lvl % 3)
                 node.tracked['ctr:' + PKH] = S['ctr']
             elif what == 'kt':
@@ -226,8 +228,11 @@ def build_chain(node, scn, S=None, levels=None, changes=None):
                                   {'kind': 'transaction', 'source': PKH, 'metadata': {'operation_result': {'status': 'applied'}}}],
                      'signature': 'sigOrig'}
                 )
+        if what == 'info' and (lvl * 5 + scn['H']) % 3 == 0:
+            # the balance moves at levels of its own: a caller who follows the counter only must not be told about them
+            node.tracked['bal:' + PKH] = 1_000_000 + lvl
         node.bake()
-        if what == 'counter':
+        if what in ('counter', 'info'):
             hist[lvl] = str(S['ctr'])
         elif what == 'kt':
             hist[lvl] = None if S['ktctr'] is None else str(S['ktctr'])
@@ -307,8 +312,14 @@ def execute(scn, want_log=False):
             except _RpcError:
                 return None
 
-        getter = {'counter': get_counter, 'ballots': get_ballots, 'proposals': get_proposals, 'kt': get_kt_counter}.get(what)
+        def get_info(lvl):
+            return shell.blocks[lvl].context.contracts[PKH]()
+
+        getter = {'counter': get_counter, 'ballots': get_ballots, 'proposals': get_proposals, 'kt': get_kt_counter, 'info': get_info}.get(what)
         eq = lambda a, b: a == b  # noqa: E731
+        if what == 'info':
+            # a caller-supplied equality that is coarser than ==: only the counter matters
+            eq = lambda a, b: a['counter'] == b['counter']  # noqa: E731
         sim.ev('search_begin', kind=scn['kind'], head=head, last=last, step=step)
         try:
             if kind == 'changes':
@@ -348,7 +359,24 @@ def execute(scn, want_log=False):
                         node.baker_on = was
                         head = node.head['level'] - 1  # an open slice ends at the current head; the helper searches up to head - 1
                         bump('chain_extended_between_two_searches')
-                if what == 'ballots':
+                if scn.get('interleave') and what in ('ballots', 'upvotes'):
+                    # two lazily evaluated searches on the same slice object, consumed alternately
+                    main = sl.find_ballots() if what == 'ballots' else sl.find_upvotes(PROP_A)
+                    other = sl.find_ballots() if what == 'ballots' else sl.find_upvotes(PROP_B)
+                    result = []
+                    done_main = done_other = False
+                    while not done_main:
+                        try:
+                            result.append(next(main)['hash'])
+                        except StopIteration:
+                            done_main = True
+                        if not done_other:
+                            try:
+                                next(other)
+                            except StopIteration:
+                                done_other = True
+                    bump('two_searches_interleaved')
+                elif what == 'ballots':
                     result = [op['hash'] for op in sl.find_ballots()]
                 elif what == 'upvotes':
                     result = [op['hash'] for op in sl.find_upvotes(PROP_A)]
@@ -377,6 +405,8 @@ def execute(scn, want_log=False):
         bump('slice_reused_for_second_search')
     if what == 'kt':
         bump('none_valued_history')
+    if what == 'info':
+        bump('coarse_equality')
     if sim.stats.get('fault:transient', 0) + sim.stats.get('fault:preval', 0) + sim.stats.get('fault:latency', 0):
         bump('fault_during_search')
     if node.head['level'] > level0:
@@ -400,7 +430,7 @@ def execute(scn, want_log=False):
     elif err is not None:
         violate('raises', f'raises:{type(err).__name__}', error=str(err)[:300])
     elif kind in ('changes', 'walk'):
-        got = [(l, v) for l, v in result]
+        got = [(l, v['counter'] if what == 'info' else v) for l, v in result]
         if got != exp_changes:
             gl = [l for l, _ in got]
             el = [l for l, _ in exp_changes]
@@ -489,6 +519,10 @@ def simplify(scn):
     if scn.get('grow_between'):
         c = cp()
         del c['grow_between']
+        yield c
+    if scn.get('interleave'):
+        c = cp()
+        del c['interleave']
         yield c
     if scn.get('presearch') and not scn.get('grow_between'):
         c = cp()
